@@ -94,9 +94,17 @@ class Peer:
             self.answered += 1
         if now >= self.next_own_ping and self.b != "never":
             self.n += 1
-            tok = "%s-%d" % (self.nick, self.n)
+            # "a PONG carrying the same token": ordinary and odd tokens (empty, leading colon, blanks, multi-byte)
+            odd = ["", ":", ":-) %d", "a:b%d", "two words %d", "é%d", "::%d", " lead%d", "#%d", "%d:"]
+            if self.n % 3 == 0:
+                t = odd[(self.n // 3) % len(odd)]
+                tok = (t % self.n) if "%d" in t else t
+                if tok in self.own_tokens:
+                    tok = "%s-%d" % (self.nick, self.n)
+            else:
+                tok = "%s-%d" % (self.nick, self.n)
             self.own_tokens[tok] = now
-            self.c.send("PING " + tok)
+            self.c.send("PING :" + tok)
             self.next_own_ping = now + 0.9
         if self.b == "unsolicited" and now >= self.next_chat:
             self.c.send("PONG :unsolicited")
